@@ -861,7 +861,11 @@ impl Check for C13 {
                             out.count("waits_given_up_then_graceful_disconnect_then_resumed", 1);
                             let n = b_obs.packets.len();
                             let is_ack = |p: &Vec<u8>| matches!(p.first().map(|b| b >> 4), Some(4 | 5 | 7));
-                            let again = b_obs.packets[n - 1].iter().find(|p| is_ack(p) && b_obs.packets[n - 2].contains(p) && !a_obs.packets.last().is_some_and(|l| l.contains(p)));
+                            // (the broker may have asked for the same acknowledgement twice - a repeated
+                            // PUBREL, a redelivered PUBLISH -: what counts is that the two connections
+                            // together carry it more often than in the uncancelled run)
+                            let count = |obs: &Observed, p: &Vec<u8>| -> usize { let m = obs.packets.len(); obs.packets[m.saturating_sub(2)..].iter().map(|c| c.iter().filter(|q| *q == p).count()).sum() };
+                            let again = b_obs.packets[n - 1].iter().find(|p| is_ack(p) && b_obs.packets[n - 2].contains(p) && !a_obs.packets.last().is_some_and(|l| l.contains(p)) && a_obs.packets.len() == n && count(&b_obs, p) > count(&a_obs, p));
                             if let Some(pk) = again {
                                 out.violations.push(viol("C13", format!("C13/{}/acknowledgement-sent-again-after-a-graceful-disconnect", kind), format!("{} given up at await {:?}, then disconnect() returned Ok, handle dropped, connected again: {} was written whole before the DISCONNECT and goes out again on the next connection (the uncancelled run does not send it there)", kind, cancels, describe(pk))));
                             }
